@@ -53,6 +53,8 @@ func init() {
 	replayers["conc"] = concReplay
 }
 
+const concReplayBudget = 150 * time.Second
+
 var (
 	concNs    = []int{2, 4, 8, 16, 32}
 	concProcs = []int{1, 2, 4, 16}
@@ -272,9 +274,9 @@ func concMakeSpec(round, n, procs int, seed uint64, tier string) *concSpec {
 // ---- the stream (parent side) --------------------------------------------------------------
 
 func concStream(r *Run) {
-	reps := 4
+	reps := 3
 	if r.Tier == "thorough" {
-		reps = 40
+		reps = 25
 	}
 	round := 0
 	for rep := 0; rep < reps; rep++ {
@@ -297,7 +299,8 @@ func concStream(r *Run) {
 		"the all-schedules claim is the Lean theorems conc_race_free/conc_eq_sequential plus the T3 obligation no_shared_writes"
 }
 
-// concReplay re-runs one round 200 times under the race detector (stops at the first failure).
+// concReplay re-runs one round up to 200 times under the race detector (stops at the first
+// failure, or after concReplayBudget once at least 20 runs are done).
 func concReplay(r *Run, f []string) string {
 	if len(f) < 6 {
 		return "bad-case"
@@ -336,7 +339,12 @@ func concRound(r *Run, line string, spec *concSpec, times int) string {
 	if !concRaceEnabled {
 		panic("conc: the harness was built without -race; property C04 needs the race-enabled build (PROP[\"race\"] = True)")
 	}
+	t0 := time.Now()
 	for t := 0; t < times; t++ {
+		if t >= 20 && time.Since(t0) > concReplayBudget {
+			break
+		}
+		r.Count("runs")
 		verdict, detail, res := concRunChild(spec)
 		if res != nil {
 			r.Stats.Hist["concurrent-ops"] += res.Ops
@@ -522,8 +530,20 @@ func concParse(e *liquid.Engine, spec *concSpec, t concTemplate) (*liquid.Templa
 	return tpl, nil
 }
 
+// Go prints a pointer nested in a struct as its address ({{ st }} with a pointer field):
+// addresses are masked, they differ between the shared and the freshly realised bindings.
+var concAddrRe = regexp.MustCompile(`0x[0-9a-f]{6,}`)
+
 // concDo performs one operation and returns its canonical result text.
-func concDo(e *liquid.Engine, spec *concSpec, t concTemplate, shared *liquid.Template, sharedErr string, op int, b liquid.Bindings) (res string) {
+func concDo(e *liquid.Engine, spec *concSpec, t concTemplate, shared *liquid.Template, sharedErr string, op int, b liquid.Bindings) string {
+	res := concDoRaw(e, spec, t, shared, sharedErr, op, b)
+	if strings.Contains(res, "0x") {
+		res = concAddrRe.ReplaceAllString(res, "0xADDR")
+	}
+	return res
+}
+
+func concDoRaw(e *liquid.Engine, spec *concSpec, t concTemplate, shared *liquid.Template, sharedErr string, op int, b liquid.Bindings) (res string) {
 	defer func() {
 		if r := recover(); r != nil {
 			res = fmt.Sprint("panic: ", r)
